@@ -56,6 +56,12 @@ type Forged struct {
 	Widths   []int `json:"widths"`    // cells in each row of the block
 	RowsDecl int   `json:"rows_decl"` // row count the table declares
 	GoodIdx  bool  `json:"good_idx"`  // the table lists the block index a keyless indexer would compute for these rows
+	// Variant "" = contradicting block/table/commit; "commit-time": a commit whose 16-byte time field holds TimeField
+	// instead of "<10 digits> <zone>"; "long-header": an object header of HeaderCont continuation bytes (HeaderByte each)
+	Variant    string `json:"variant,omitempty"`
+	TimeField  string `json:"time_field,omitempty"`
+	HeaderCont int    `json:"header_cont,omitempty"`
+	HeaderByte int    `json:"header_byte,omitempty"`
 }
 
 func init() {
@@ -98,6 +104,15 @@ func init() {
 				}
 				if r.Chance(0.3) {
 					f.RowsDecl = Pick(r, []int{0, 1, nrows + 1, 255, 256})
+				}
+				switch r.Intn(5) {
+				case 0:
+					f.Variant = "commit-time"
+					f.TimeField = Pick(r, []string{"1700000000000 +0", "17000000000 +070", "170000000000000 ", "               0", " 1700000000+0700", "1700000000 +07:0", "1700000000+07000", "0000000000 -9999", "9999999999 +2400", "1700000000 \x00\x00\x00\x00\x00", "-000000001 +0000", "1e9        +0000"})
+				case 1:
+					f.Variant = "long-header"
+					f.HeaderCont = Pick(r, []int{8, 9, 10, 11, 12, 20, 64, 300})
+					f.HeaderByte = Pick(r, []int{0x80, 0xff, 0x81})
 				}
 				p.Forged = f
 				return p
@@ -510,6 +525,14 @@ func execC17Forged(p *C17Plan, res *Result) {
 	}
 	res.Nontrivial = true
 	s2Claim = 0
+	if f.Variant == "commit-time" || f.Variant == "long-header" {
+		execC17ForgedBytes(f, res)
+		return
+	}
+	if f.Variant != "" {
+		res.Invalid("variant")
+		return
+	}
 	res.fault("forged_contradicting_objects", 1)
 	cols := make([]string, f.Cols)
 	for i := range cols {
@@ -592,5 +615,85 @@ func execC17Forged(p *C17Plan, res *Result) {
 		res.probe("forged_packfile_rejected", 1)
 	} else {
 		res.probe("forged_packfile_accepted", 1)
+	}
+}
+
+// execC17ForgedBytes: byte-level forgeries no mutation of a valid stream reaches in practice.
+func execC17ForgedBytes(f *Forged, res *Result) {
+	dst := NewStore("dst", &World{})
+	var pf bytes.Buffer
+	pw, err := packfile.NewPackfileWriter(&pf)
+	if err != nil {
+		res.Invalid("%v", err)
+		return
+	}
+	what := ""
+	var wants [][]byte
+	switch f.Variant {
+	case "commit-time":
+		if len(f.TimeField) != 16 {
+			res.Invalid("time field must be 16 bytes")
+			return
+		}
+		res.fault("forged_commit_time_field", 1)
+		// a table the commit can point at, so that the time field is the only oddity
+		tbl := &objects.Table{Columns: []string{"a"}}
+		var tb bytes.Buffer
+		tbl.WriteTo(&tb)
+		com := &objects.Commit{Table: meowSum(tb.Bytes()), AuthorName: "a", AuthorEmail: "e", Message: "m", Time: time.Unix(1700000000, 0).UTC()}
+		var cb bytes.Buffer
+		com.WriteTo(&cb)
+		raw := cb.Bytes()
+		i := bytes.Index(raw, []byte("1700000000 +0000"))
+		if i < 0 {
+			res.Invalid("time field not found in the encoded commit")
+			return
+		}
+		forged := append(append(append([]byte(nil), raw[:i]...), []byte(f.TimeField)...), raw[i+16:]...)
+		pw.WriteObject(packfile.ObjectTable, tb.Bytes())
+		pw.WriteObject(packfile.ObjectCommit, forged)
+		wants = [][]byte{meowSum(forged)}
+		what = fmt.Sprintf("a commit whose time field is %q", f.TimeField)
+		// the stored-object path as well
+		st := NewStore("disk", &World{})
+		st.RawSet("com/"+string(meowSum(forged)), forged)
+		if !guarded(res, "GetCommit of "+what, len(forged), func() error { _, err := objects.GetCommit(st, meowSum(forged)); return err }) {
+			return
+		}
+	case "long-header":
+		if f.HeaderCont < 0 || f.HeaderCont > 5000 || f.HeaderByte < 0x80 || f.HeaderByte > 0xff {
+			res.Invalid("header")
+			return
+		}
+		res.fault("forged_overlong_object_header", 1)
+		pf.WriteByte(byte(packfile.ObjectCommit<<4) | 0x80 | 0x0f)
+		for i := 0; i < f.HeaderCont; i++ {
+			pf.WriteByte(byte(f.HeaderByte))
+		}
+		pf.WriteByte(0x01)
+		pf.Write([]byte("x"))
+		what = fmt.Sprintf("an object header of %d continuation bytes %#x", f.HeaderCont, f.HeaderByte)
+	}
+	var rerr error
+	if !guarded(res, "ObjectReceiver.Receive of a packfile with "+what, pf.Len(), func() error {
+		pr, err := packfile.NewPackfileReader(io.NopCloser(bytes.NewReader(pf.Bytes())))
+		if err != nil {
+			rerr = err
+			return err
+		}
+		recv := apiutils.NewObjectReceiver(dst, wants, logr.Discard())
+		_, rerr = recv.Receive(pr, nil)
+		return rerr
+	}) {
+		return
+	}
+	if c, d := CheckRepoInvariants(dst.Snapshot(), map[string][]byte{}); c != "" {
+		res.Violate("rejected-object-left:"+c, "after Receive of a packfile with %s returned %v: %s", what, rerr, d)
+		return
+	}
+	if rerr != nil {
+		res.probe("forged_bytes_rejected", 1)
+	} else {
+		res.probe("forged_bytes_accepted", 1)
 	}
 }
